@@ -617,9 +617,13 @@ func (c *c13Checker) check(img *c13Image, dir string, labelFn func(epoch uint32)
 			add("C13/files-missing-db-complete/"+label, fmt.Sprintf("dkg.db records epoch %d as completed but there is neither a group file nor a share", dbEpoch))
 		}
 	case gPresent && !sPresent:
-		add("C13/group-without-share/"+label, "group file present, share file absent")
+		if gOK {
+			add("C13/group-without-share/"+label, fmt.Sprintf("group file (epoch %s) present, share file absent", c.epochOfGroup(g)))
+		}
 	case !gPresent && sPresent:
-		add("C13/share-without-group/"+label, "share file present, group file absent")
+		if sOK {
+			add("C13/share-without-group/"+label, fmt.Sprintf("share file (epoch %s) present, group file absent", c.epochOfShare(s)))
+		}
 	case gOK && sOK:
 		if why := c.shareFitsGroup(s, g); why != "" {
 			ge, se := c.epochOfGroup(g), c.epochOfShare(s)
